@@ -168,6 +168,17 @@ static void check13(const Bytes &doc, bool arr, unsigned depth, Src &s, const st
         }
         for (int i = 0; i < 16; i++) caps.push_back(s.u32() % (need + 4));
         caps.push_back(need * 2);
+        // block boundaries: every multiple of 16384 characters after the start of each of the first structural characters (+-1)
+        {
+            size_t seenp = 0;
+            for (size_t i = 0; i < full.text.size() && seenp < 12; i++) {
+                char ch = full.text[i];
+                if (ch == 'x' || ch == '"' || ch == '[' || ch == ':') {
+                    seenp++;
+                    for (size_t m = 16384; i + 1 + m < need + 2; m += 16384) { caps.push_back(i + m); caps.push_back(i + 1 + m); caps.push_back(i + 2 + m); }
+                }
+            }
+        }
     }
     for (size_t c : caps) {
         ToStr r = to_string_cap(pb.p, c, false);
